@@ -463,7 +463,8 @@ def plan(tier, seed):
               for i in range(n)]
     shards[1]['compete'] = [
         {'compete': [srv, b_when, b_act, a_end]} for srv in SRV + ['W']
-        for b_when in ('before-probe', 'after-probe', 'probes-early')
+        for b_when in ('before-probe', 'after-probe', 'probes-early',
+                       'accept-delayed')
         for b_act in ('wrong-first', 'close', 'probe-then-wrong',
                       'probe-then-close', 'probe-then-upgrade')
         for a_end in ('client-close', 'disconnect')]
